@@ -15,8 +15,8 @@ PRELUDE_FNS = {"make_valid_address|calculate_from_offset|inc_addr|separate_bytes
 UNITS = {
     "loader": {"tpl": "loader.rs", "props": ["C12", "C09", "C04"],
                "fn_props": {**PRELUDE_FNS, "ld_.*": ["C12", "C09"]}},
-    "mapper": {"tpl": "mapper.rs", "props": ["C16"],
-               "fn_props": {**PRELUDE_FNS, ".*": ["C16"]}},
+    "mapper": {"tpl": "mapper.rs", "props": ["C16", "C20"],      # C20: the prompt names the instruction's line through this map
+               "fn_props": {**PRELUDE_FNS, ".*": ["C16", "C20"]}},
     "lexer": {"tpl": "lexer.rs", "props": ["C16", "C09"],
               "fn_props": {**PRELUDE_FNS, "get_line|get_newline_before|get_err_pos|lemma_.*": ["C16", "C09"], "preprocess|note_cite|new_real": ["C16", "C09"]},
               "assumes": ["unit lexer: ASSUMED contract of std's str::char_indices / str::len (rewrite R16: the k-th item is the byte offset and the value of the k-th character; offsets strictly increasing and inside the text; a text is at most isize::MAX bytes). With it LexerHelper::new is PROVED to build the increasing list of the newline characters' byte offsets (`wf`), for texts of any length and any characters; the bounded Kani unit b_lexer_new runs the real std code on 31 strings incl. multi-byte characters (cross-check of exactly this assumption)",
